@@ -235,6 +235,48 @@ def may_write(prog, rep):
         raise AnalysisError("C15 may-write rule no longer recognises its positive control")
 
 
+def export_purity(prog, rep):
+    """drawing a Sankey diagram of a system (every flow in turn split by each of its dimensions, with and without a slice) writes
+    into none of the system's flow arrays"""
+    from . import c20 as C20, c02 as SYS
+    from ..world import World
+    from ..interp import run_guarded
+    rid = rep.rule("C15.export-leaves-inputs-unchanged", "plotting a system writes into none of its arrays")
+    P = prog.cls("PlotlySankeyPlotter")
+    for gi, graph in enumerate(C20.SANKEY_GRAPHS):
+        for k, (fr, to, dims) in enumerate(graph[1]):
+            for split in [None] + list(dims):
+                for slice_kind in ("none", "b"):
+                    w = World(prog, "concrete")
+                    it = w.it
+                    C20.install_plot_models(it, [])
+                    mfa, leafs = SYS.build_system(w, graph)
+                    flows = list(mfa.f["flows"].values())
+                    name = list(mfa.f["flows"])[k]
+                    kw = dict(mfa=mfa, exclude_processes=[])
+                    if split:
+                        kw["flow_color_dict"] = {"default": "grey", name: (split, [f"col{i}" for i in range(25)])}
+                    if slice_kind != "none":
+                        if split == slice_kind:
+                            continue
+                        kw["slice_dict"] = {slice_kind: w.items(slice_kind)[1]}
+                    snaps = w.snap(*flows)
+                    kind, pl = run_guarded(lambda: it.construct(P, [], kw))
+                    if kind != "ok":
+                        continue
+                    kind, fig = run_guarded(lambda: it.call_method(pl, "plot"))
+                    rep.evaluations += 1
+                    ch = w.changed(snaps)
+                    inp = {"graph": gi, "flow": name, "flow_dims": list(dims), "split_by": split, "slice": kw.get("slice_dict", {})}
+                    rep.oblige(rid, not ch, where="PlotlySankeyPlotter.plot", what=str(inp), distinct=(rid, gi, k, split, slice_kind))
+                    if ch:
+                        fn = prog.method("PlotlySankeyPlotter", "plot")
+                        rep.add(Finding("C15", rid, fn.module, "PlotlySankeyPlotter.plot", f"{gi}:{k}:{split}:{slice_kind}",
+                                        f"drawing the diagram changed the system: {'; '.join(ch)[:200]}", line=fn.node.lineno, abstract_input=inp))
+                        return
+    rep.rules[rid]["floor"] = 20
+
+
 def run(prog, rep):
     rep.rule("C15.inputs-unchanged", "an operation that is not explicitly in place leaves every input exactly as it was")
     rep.rule("C15.independent-result", "results share no memory and no dimension list with any input")
@@ -244,6 +286,7 @@ def run(prog, rep):
         prog.method("FlodymArray", a)
     run_array_property(prog, rep, "C15", ["arith", "reduce", "index", "misc", "illformed", "producers", "stocks", "lifetime", "reduce@uniform", "index@uniform"], aspects)
     may_write(prog, rep)
+    export_purity(prog, rep)
     rep.rules["C15.inputs-unchanged"]["floor"] = 2500
     rep.rules["C15.independent-result"]["floor"] = 1500
     if rep.exhaustive is None:
